@@ -444,6 +444,11 @@ def plane_history(case, ctx):
             rng = np.random.default_rng(st_["seed"])
             arr_opd, arr_amp = np.ndim(p.opd) == 2, np.ndim(p.amplitude) == 2
             shp = np.asarray(p.mask).shape[-2:]
+            # smallest extent of any segment's support: resampling must leave every segment a few samples wide
+            pm_ = np.asarray(p.mask)
+            segs_ = [pm_] if pm_.ndim == 2 else list(pm_)
+            ext_ = min(min(gen.bbox(s_ != 0)[1] - gen.bbox(s_ != 0)[0] + 1, gen.bbox(s_ != 0)[3] - gen.bbox(s_ != 0)[2] + 1)
+                       for s_ in segs_)
             applied = True
             with lentil_call("C07.history.edit", f"{e} after [{' '.join(done)}]"):
                 if e == "set_opd":
@@ -464,9 +469,9 @@ def plane_history(case, ctx):
                     p = p.copy()
                 elif e == "deepcopy":
                     p = _copy.deepcopy(p)
-                elif e == "rescale" and max(shp) * st_["s"] <= 60 and min(shp) * st_["s"] >= 4:
+                elif e == "rescale" and max(shp) * st_["s"] <= 60 and ext_ * st_["s"] >= 4:
                     p = p.rescale(st_["s"])
-                elif e == "resample" and max(shp) * st_["s"] <= 60 and min(shp) * st_["s"] >= 4:
+                elif e == "resample" and max(shp) * st_["s"] <= 60 and ext_ * st_["s"] >= 4:
                     p = p.resample(p.pixelscale[0] / st_["s"])
                 elif e == "fit_tilt" and arr_opd:
                     p.fit_tilt(inplace=True)
@@ -481,6 +486,11 @@ def plane_history(case, ctx):
             w = lentil.Wavefront(wl) * p
         if any(np.ndim(f.data) == 2 and f.data.size == 1 for f in w.data):
             raise Skip("single_sample_intermediate_field(known)")
+        pm_ = np.asarray(p.mask)
+        if pm_.ndim == 3 and np.any((pm_ != 0).sum(axis=0) > 1):
+            # abutting segments resampled one by one (nearest neighbour) can come to share boundary samples; such a
+            # mask is no longer a partition and the pointwise-phasor statement does not say what the field is there
+            raise Skip("segments_overlap_after_resampling")
         with lentil_call("C07.history.field", "Wavefront.field"):
             got = w.field
         exp = _expected_field(p, wl)
